@@ -243,6 +243,10 @@ EDGE_SOURCES = (
     ('31', 'function($x as xs:anyAtomicType) { $x }(/)'), ('31', 'function($x as xs:anyAtomicType*) { $x }(//b)'), ('31', 'function($x as xs:numeric) { $x }(//b)'),
     ('31', 'function($x as xs:untypedAtomic) as xs:anyAtomicType { $x }(//b)'), ('31', "let $a := / return name(.)"), ('31', 'abs#1 treat as function(*)'),
     ('31', 'map{xs:double("NaN"): 1}(xs:float("NaN"))'),
+    ('1', '//1'), ('31', "//'x'"), ('31', 'count(//3)'), ('31', "//(1.5, 'a')"), ('31', '//map{}'), ('31', "() | map{'a': 1}"), ('31', "map{'a': 1} intersect a"),
+    ('31', "() except map{'a': 1}"), ('2', "1.5 = xs:untypedAtomic('x')"), ('31', '1.5 < //b'), ('31', '//c != 1.5'), ('31', 'math:exp10(99999999999)'),
+    ('31', 'math:exp(99999999999)'), ('31', 'math:exp10(1e308)'), ('31', 'math:pow(2, 1e308)'), ('31', 'math:pow(2e0, 0.5)'), ('31', '1 to 9223372036854775808'),
+    ('2', 'head(1 to 9223372036854775808)'), ('31', "[exists(b), name()]"), ('31', '//. ! name()'),
 )
 _PARSERS = {'1': XPath1Parser, '2': XPath2Parser, '31': XPath31Parser}
 
